@@ -56,6 +56,13 @@ def spellings(t, nsw, r, eww, has_ns, has_ew):
     out.append(('T. R.', (f"T. {t} {nsw}, R. {r} {eww}").replace(' ,', ',').rstrip()))
     out.append(('t-r', f"t{t}{nsw}-r{r}{eww}"))
     out.append(('Township - Range', f"Township {t} {nsw} - Range {r} {eww}".replace('  ', ' ').rstrip()))
+    if has_ns:
+        # without the 'T' / 'Township' word (the range keeps its 'R' / 'Range'): '154N-R97W', '154 North, Range 97 West', also with
+        # the E/W missing ('154N-R97')
+        out.append(('noT N-R', f"{t}{nsw}-R{r}{eww}"))
+        out.append(('noT n-r', f"{t}{nsw}-r{r}{eww}"))
+        out.append(('noT words', f"{t} {nsw}, Range {r} {eww}".rstrip()))
+        out.append(('noT WORDS', f"{t} {nsw}, RANGE {r} {eww}".rstrip()))
     if t < 100 and r < 100:
         # leading zeros ("clean up any leading '0's" in unpack_twprge)
         out.append(('zero padded', f"T{t:02d}{nsw}-R{r:03d}{eww}"))
@@ -278,7 +285,7 @@ def run_ocr(acc):
 
 
 def run_two(acc):
-    names = ['T-R', 'Township, Range', 'Twp. Rge.', 'bare dash', 't-r', 'T. R.']
+    names = ['T-R', 'Township, Range', 'Twp. Rge.', 'bare dash', 't-r', 'T. R.', 'noT N-R', 'noT words']
     A = (154, 'N', 97, 'W')
     B = (7, 'S', 9, 'E')
     for na in names:
@@ -315,6 +322,34 @@ def run_two(acc):
                     if bool([f for f in d.w_flags if f.startswith('fixed_twprge')]) != missing:
                         acc.violation('fixed_twprge_warning', f"C08:fixed_twprge_warning:{key}", case, got=d.w_flags)
                         continue
+                    acc.guard('two_ok')
+
+
+def run_two_noT(acc):
+    """A second Twp/Rge written without 'T' and without its E/W, behind a comma / semicolon / line break."""
+    for na in ('T-R', 'Township, Range', 'noT N-R'):
+        ta = dict(spellings(154, 'N', 97, 'W', True, True))[na]
+        for tb in ('7S-R9', '7 South, Range 9', '7s-r9', '7S R9'):
+            for sep in (', ', '; ', '\n', ' '):
+                text = f"{ta} Sec 14: NE/4{sep}{tb} Sec 36: ALL"
+                key = f"two|{text}"
+                case = {'two': True, 'text': text}
+                acc.transitions += 1
+                try:
+                    d = _p.PLSSDesc(text)
+                    find = _p.find_twprge(text, preprocess=True)
+                except Exception as ex:  # noqa
+                    acc.case(key, 'EXC')
+                    acc.violation('exception', f"C08:exception:{key}", case, got=f"{type(ex).__name__}: {ex}")
+                    continue
+                acc.case(key, [[x.trs for x in d.tracts], find])
+                acc.states += 1
+                if find != ['T154N-R97W', 'T7S-R9W'] or [(x.trs, x.desc) for x in d.tracts] != [('154n97w14', 'NE/4'), ('7s9w36', 'ALL')] \
+                        or not [f for f in d.w_flags if f.startswith('fixed_twprge')]:
+                    acc.violation('two_twprge_tracts', f"C08:two_twprge_tracts:{text}", case,
+                                  got=[find, [(x.trs, x.desc) for x in d.tracts], d.w_flags, d.pp_desc],
+                                  exp=[['T154N-R97W', 'T7S-R9W'], [('154n97w14', 'NE/4'), ('7s9w36', 'ALL')], 'fixed_twprge<7s9w>'])
+                else:
                     acc.guard('two_ok')
 
 
@@ -431,6 +466,7 @@ def run_unit(unit, tier):
         run_ocr(acc)
     else:
         run_two(acc)
+        run_two_noT(acc)
     return acc.result()
 
 
@@ -441,7 +477,7 @@ def replay(case):
         return acc.viol
     if case.get('ocr') or case.get('two'):
         sub = Acc()
-        (run_ocr if case.get('ocr') else (run_same if case.get('same') else run_two))(sub)
+        (run_ocr if case.get('ocr') else (run_same if case.get('same') else (lambda a: (run_two(a), run_two_noT(a)))))(sub)
         return [v for v in sub.viol if v['case'].get('text') == case['text']]
     judge(acc, case['t'], case['ns'], case['r'], case['ew'], case['spelling'], case['text'], case['source'],
           case['dns'], case['dew'], set())
